@@ -3,20 +3,33 @@
 package workers
 
 import (
+	"reflect"
+	"unsafe"
+
 	"github.com/form3tech-oss/f1/v2/pkg/f1/testing"
 )
+
+// The accessors find unexported fields by their TYPE, not by their name, so that a rename
+// of an unexported identifier does not break the harness.
+
+var verifTType = reflect.TypeOf((*testing.T)(nil))
+
+// verifTField returns the first field of type *testing.T of the struct p points to.
+func verifTField(p any) *testing.T {
+	v := reflect.ValueOf(p).Elem()
+	for i := 0; i < v.NumField(); i++ {
+		if f := v.Field(i); f.Type() == verifTType {
+			return (*testing.T)(unsafe.Pointer(f.Pointer()))
+		}
+	}
+	panic("verif: no *testing.T field")
+}
 
 // VerifIterState gives the harness a per-worker iteration state as the pools build it.
 type VerifIterState = iterationState
 
 func (s *ActiveScenario) VerifNewIterationState() *VerifIterState { return s.newIterationState() }
 
-func VerifStateT(st *VerifIterState) *testing.T { return st.t }
+func VerifStateT(st *VerifIterState) *testing.T { return verifTField(st) }
 
-func (s *ActiveScenario) VerifSetupT() *testing.T { return s.t }
-
-// VerifPending reads the pending-request counter of a trigger pool.
-func (p *TriggerPool) VerifPending() int64 { return p.jobsToExecute.num.Load() }
-
-// VerifStopped reports whether the pool has been told to stop.
-func (p *TriggerPool) VerifStopped() bool { return p.stopWorkers.Load() }
+func (s *ActiveScenario) VerifSetupT() *testing.T { return verifTField(s) }
